@@ -48,25 +48,34 @@ class ChunkParser:
             self.chunk = b''
             # Extract following chunk data size
             line, raw = find_http_line(raw)
-            # CRLF not received or Blank line was received.
-            if line is None or line.strip() == b'':
+            if line is None:
+                # CRLF not received yet, keep the partial line for later
                 self.chunk = raw
                 raw = b''
-            else:
-                self.size = int(line, 16)
-                self.state = chunkParserStates.WAITING_FOR_DATA
+            elif self.size == 0:
+                # Last chunk was seen: a blank line ends the message,
+                # anything else is a trailer field which we skip.
+                if line.strip() == b'':
+                    self.state = chunkParserStates.COMPLETE
+                    self.size = None
+            elif line.strip() != b'':
+                # Chunk extensions (if any) follow the size after a semicolon
+                self.size = int(line.split(b';', 1)[0], 16)
+                if self.size != 0:
+                    self.state = chunkParserStates.WAITING_FOR_DATA
+            # else: blank line i.e. CRLF terminating previous chunk data, skip it
         elif self.state == chunkParserStates.WAITING_FOR_DATA:
             assert self.size is not None
             remaining = self.size - len(self.chunk)
             self.chunk += raw[:remaining]
             raw = raw[remaining:]
             if len(self.chunk) == self.size:
-                raw = raw[len(CRLF):]
+                # CRLF terminating the chunk data may arrive later, in
+                # which case it is skipped as a blank line (see above).
+                if raw[:len(CRLF)] == CRLF:
+                    raw = raw[len(CRLF):]
                 self.body += self.chunk
-                if self.size == 0:
-                    self.state = chunkParserStates.COMPLETE
-                else:
-                    self.state = chunkParserStates.WAITING_FOR_SIZE
+                self.state = chunkParserStates.WAITING_FOR_SIZE
                 self.chunk = b''
                 self.size = None
         return len(raw) > 0, memoryview(raw)
